@@ -360,3 +360,83 @@ func c07CopyThroughFilter(p *load.Prog, r *oblig.Run) {
 		r.Add("R07.i", "results", p.Pos(dc.Pos()), "results of DeepCopy").Unknown("DeepCopy has no return")
 	}
 }
+
+// c07Bookkeeping (R07.j): DeepEqualNodes pairs every left child with a right child that was not used yet; "used" is
+// recorded per POSITION of the right list. Recording it per node (a set keyed by the node) treats every occurrence of a
+// node that appears twice among the siblings as used after its first pairing.
+func c07Bookkeeping(p *load.Prog, r *oblig.Run) {
+	r.Rule("R07.j", "DeepEqualNodes records which right children were paired by position, not by node", 1)
+	den := p.Func(load.PkgRoot, "DeepEqualNodes")
+	if den == nil {
+		r.Add("R07.j", "anchor", "-", "anchor").Unknown("DeepEqualNodes not found")
+		return
+	}
+	fns := []*ssa.Function{den}
+	for _, c := range su.Calls(den) {
+		if h := c.Common().StaticCallee(); h != nil && h != den && pkgPathOf(h) == load.PkgRoot && len(h.Blocks) > 0 && comparesElements(h) && h.Name() != "DeepEqual" {
+			fns = append(fns, h)
+		}
+	}
+	o := r.Add("R07.j", "used-marks in DeepEqualNodes", p.Pos(den.Pos()), "what the test for an already paired right child is keyed by")
+	indexKeyed, valueKeyed := false, ""
+	for _, fn := range fns {
+		for _, l := range allElementLoops(fn) {
+			// the loops whose element is handed to DeepEqual
+			compares := false
+			for _, c := range su.Calls(fn) {
+				cc := c.Common()
+				if cal := cc.StaticCallee(); cal != nil && cal.Name() == "DeepEqual" {
+					for _, a := range cc.Args {
+						if l.elementOf(a) {
+							compares = true
+						}
+					}
+				}
+			}
+			if !compares {
+				continue
+			}
+			for _, b := range fn.Blocks {
+				if b != l.header && !loopBlock(b, l.header) {
+					continue
+				}
+				for _, ins := range b.Instrs {
+					switch x := ins.(type) {
+					case *ssa.Lookup:
+						if x.Index == l.cur {
+							indexKeyed = true
+						}
+					case *ssa.IndexAddr:
+						if x.Index == l.cur && x.X != l.slice {
+							if sl, ok := x.X.Type().Underlying().(*types.Slice); ok {
+								if _, isBasic := sl.Elem().Underlying().(*types.Basic); isBasic {
+									indexKeyed = true
+								}
+							}
+						}
+					case *ssa.Call:
+						cal := x.Call.StaticCallee()
+						if cal == nil || cal.Name() == "DeepEqual" || cal.Name() == "Equals" {
+							continue
+						}
+						if n := strings.ToLower(cal.Name()); n == "has" || n == "contains" || strings.HasPrefix(n, "has") {
+							for _, a := range x.Call.Args {
+								if l.elementOf(a) {
+									valueKeyed = p.Pos(x.Pos())
+								}
+							}
+						}
+					}
+				}
+			}
+		}
+	}
+	switch {
+	case valueKeyed != "":
+		o.Fail("the test whether a right child was already paired asks a set for the node itself (" + valueKeyed + "): when the same node object occurs twice among the siblings, pairing its first occurrence marks both as used - a tree is then not deep-equal to itself or to its copy")
+	case indexKeyed:
+		o.OK("keyed by the position in the right list")
+	default:
+		o.Unknown("cannot find how DeepEqualNodes remembers which right children were paired")
+	}
+}
